@@ -74,14 +74,50 @@ def check_case(case, stats=None):
                     raise Violation('update-frame', {'query': text, 'record': i + 1, 'field': j + 1})
 
 
+def check_named_permutations():
+    """The same UPDATE text (named targets) over every column order of one table, run back to back in
+    one interpreter: the expectation comes from a by-name lookup, independent of the engine."""
+    import itertools
+    base_names = ['k', 'n', 'tags']
+    rows_by_name = [{'k': 'a', 'n': '1', 'tags': 'x'}, {'k': 'b', 'n': '2', 'tags': 'y'}, {'k': 'a', 'n': '3', 'tags': 'z'}]
+    queries = [("update a.n = 'N', a[\"k\"] = a.tags + '!'", lambda r: dict(r, n='N', k=r['tags'] + '!')),
+               ("update set a['tags'] = a.k where a.n != '2'", lambda r: dict(r, tags=r['k']) if r['n'] != '2' else dict(r)),
+               ("update a.k = a.n, a.n = a.k", lambda r: dict(r, k=r['n'], n=r['k']))]
+    perms = list(itertools.permutations(base_names))
+    n = 0
+    for query, fn in queries:
+        for names in perms + perms[::-1]:
+            A = [[r[c] for c in names] for r in rows_by_name]
+            exp = [[fn(r)[c] for c in names] for r in rows_by_name]
+            got = engine_run(query, A, list(names))
+            n += 1
+            if got['error'] is not None or got['out'] != exp or got['header'] != list(names):
+                raise Violation('named-target-depends-on-previous-query', {'query': query, 'column_order': list(names), 'got': got['out'], 'expected': exp, 'error': got['error']})
+    return n
+
+
+def engine_run(query, A, names):
+    from .. import engine
+    return engine.run_table(query, [list(r) for r in A], None, names)
+
+
 def shard(shard, nshards, tier, seed, scratch):
     total = 20000 if tier == 'quick' else 200000
     stats = Stats()
     failures = run_hypothesis(strategy(), lambda c: check_case(c, stats), max(1, total // nshards), seed, shrink_budget=300 if tier == 'quick' else 2000)
+    if shard == 0:
+        try:
+            n = check_named_permutations()
+            stats.bump('named-target-permutation-runs', n)
+        except Violation as v:
+            failures.append({'clause': v.clause, 'detail': v.detail, 'case': {'kind': 'named-permutations'}})
     return {'stats': stats.export(), 'failures': failures}
 
 
 def replay(case, clause=None):
+    if case.get('kind') == 'named-permutations':
+        check_named_permutations()
+        return
     check_case(case)
 
 
